@@ -15,7 +15,7 @@ func init() {
 		id: "C19",
 		li: levelInfo{
 			Level:       "other",
-			Explanation: "Static rules on the hot-key counter and collector. R1 (size bound): in Incr every path that inserts a new key while len(items) >= capacity crosses evict first; evict deletes exactly one map entry and add inserts exactly one. R2 (report cap): in the sorted insert the append is dominated by len < capacity and the shift-insert writes only below the old length. R3 (no key twice): a key handled in the already-hot loop is deleted from the accessed map before the new-keys loop; each loop inserts once per map key; the published slice comes from a sorted container created in the same collection (never a buffer that is already published). R4 (locks): Counter.items/freqHead only under Counter.mu, Collector.keys/counters only under rwmu, acyclic lock order, the free callback runs without Counter.mu. R5: a report contains only keys that were reported before or came out of a counter's Latch. R6: the frequency of a list node is immutable after creation, an incremented item moves to a node created with freq+1 right after its node, a new item enters at a freq-1 head node (the shape by which the list stays sorted). Exactness of counts and lowest-count eviction as such depend on pointer-shape invariants of the doubly linked list and are not decided. R7: no link field of a list node is read after Free() cleared it. R8: the counter method the per-period merge calls refreshes the last-update minute on every return path. R9: the map of tracked keys and the frequency list are emptied together. R10: the HOTKEY report lists the tracked key names verbatim. R11 (shared with C13.R11): the bytes of a pooled buffer are only copied out of the function that releases the buffer. R12: lookup and insertion of a key under one acquisition of the mutex. R13: the list primitives are executed symbolically over all neighbour shapes and compared with the doubly-linked-list specification. R3 follows the publication of the key set into a helper.",
+			Explanation: "Static rules on the hot-key counter and collector. R1 (size bound): in Incr every path that inserts a new key while len(items) >= capacity crosses evict first; evict deletes exactly one map entry and add inserts exactly one. R2 (report cap): in the sorted insert the append is dominated by len < capacity and the shift-insert writes only below the old length. R3 (no key twice): a key handled in the already-hot loop is deleted from the accessed map before the new-keys loop; each loop inserts once per map key; the published slice comes from a sorted container created in the same collection (never a buffer that is already published). R4 (locks): Counter.items/freqHead only under Counter.mu, Collector.keys/counters only under rwmu, acyclic lock order, the free callback runs without Counter.mu. R5: a report contains only keys that were reported before or came out of a counter's Latch. R6: the frequency of a list node is immutable after creation, an incremented item moves to a node created with freq+1 right after its node, a new item enters at a freq-1 head node (the shape by which the list stays sorted). Exactness of counts and lowest-count eviction as such depend on pointer-shape invariants of the doubly linked list and are not decided. R7: no link field of a list node is read after Free() cleared it. R8: the counter method the per-period merge calls refreshes the last-update minute on every return path. R9: the map of tracked keys and the frequency list are emptied together. R10: the HOTKEY report lists the tracked key names verbatim. R11 (shared with C13.R11): the bytes of a pooled buffer are only copied out of the function that releases the buffer. R12: lookup and insertion of a key under one acquisition of the mutex. R13: the list primitives are executed symbolically over all neighbour shapes and compared with the doubly-linked-list specification. R3 follows the publication of the key set into a helper. R14: the slice HotKeys() returns is never sorted or written in place by a reader. R11 also: a function that takes an object from a pool and gives it back returns nothing derived from it.",
 			TrustedBase: []string{"go/ssa", "samlint elock.go"},
 		},
 		run: checkC19,
